@@ -1,6 +1,7 @@
 package props
 
 import (
+	"sort"
 	"fmt"
 	"go/token"
 	"go/types"
@@ -128,8 +129,14 @@ func isExit(n paths.Node) bool { return n.IsExit() }
 // result of a call), "nonnil:<path class>" , "err:<callee short name>" (error result
 // non-nil), "" unknown.
 func edgeAtom(iff *ssa.If, idx int) (string, bool) {
-	truth := idx == 0
-	v := iff.Cond
+	if call, nonNil, ok := paths.ErrEdge(iff, idx); ok {
+		return "err:" + calleeShort(call.Common()), nonNil
+	}
+	return condAtom(iff.Cond, idx == 0)
+}
+
+// condAtom names what it means for the boolean value v to have the given truth.
+func condAtom(v ssa.Value, truth bool) (string, bool) {
 	for i := 0; i < 4; i++ {
 		if u, ok := v.(*ssa.UnOp); ok && u.Op == token.NOT {
 			v = u.X
@@ -137,9 +144,6 @@ func edgeAtom(iff *ssa.If, idx int) (string, bool) {
 			continue
 		}
 		break
-	}
-	if call, nonNil, ok := paths.ErrEdge(iff, idx); ok {
-		return "err:" + calleeShort(call.Common()), nonNil
 	}
 	switch x := v.(type) {
 	case *ssa.BinOp:
@@ -434,5 +438,176 @@ func (c *Ctx) neverAfter(rule, construct string, g *paths.Graph, a, b func(paths
 		c.R.Bad(rule, construct, pos, badText, c.witness(g, p)...)
 	} else {
 		c.R.Ok(rule, construct, pos, okText)
+	}
+}
+
+// fact is a guard atom with the truth it is known to have.
+type fact struct {
+	Atom  string
+	Truth bool
+}
+
+// blockFacts: the branch facts that hold whenever block b executes (edges on its
+// dominator chain that are the only way into the dominated region). A test made through
+// a boolean helper of the library (`if n.isEmpty()`) is expanded into the facts that
+// hold on every way the helper can return that result.
+func (c *Ctx) blockFacts(b *ssa.BasicBlock, depth int) []fact {
+	var out []fact
+	for d := b; d != nil && d.Idom() != nil; d = d.Idom() {
+		id := d.Idom()
+		iff, ok := id.Instrs[len(id.Instrs)-1].(*ssa.If)
+		if !ok {
+			continue
+		}
+		for idx, s := range id.Succs {
+			if s == d && len(s.Preds) == 1 || s != d && s.Dominates(d) && len(s.Preds) == 1 {
+				if _, _, isErr := paths.ErrEdge(iff, idx); isErr {
+					a, t := edgeAtom(iff, idx)
+					out = append(out, fact{a, t})
+					continue
+				}
+				out = append(out, c.impliedFacts(iff.Cond, idx == 0, depth)...)
+			}
+		}
+	}
+	return out
+}
+
+// impliedFacts: facts that necessarily hold when the boolean value v has the given truth.
+func (c *Ctx) impliedFacts(v ssa.Value, truth bool, depth int) []fact {
+	for i := 0; i < 4; i++ {
+		if u, ok := v.(*ssa.UnOp); ok && u.Op == token.NOT {
+			v, truth = u.X, !truth
+			continue
+		}
+		break
+	}
+	var own []fact
+	if a, t := condAtom(v, truth); a != "" {
+		own = append(own, fact{a, t})
+	}
+	call, ok := v.(*ssa.Call)
+	if !ok || depth <= 0 {
+		return own
+	}
+	callee := call.Common().StaticCallee()
+	if callee == nil || callee.Blocks == nil || !c.P.InLib(callee) || callee.Signature.Results().Len() != 1 {
+		return own
+	}
+	// every way the callee can return `truth`, with the facts along that way
+	var ways [][]fact
+	var visit func(r ssa.Value, blk *ssa.BasicBlock, seen map[ssa.Value]bool)
+	visit = func(r ssa.Value, blk *ssa.BasicBlock, seen map[ssa.Value]bool) {
+		switch x := r.(type) {
+		case *ssa.Const:
+			if x.Value != nil && (x.Value.ExactString() == "true") == truth {
+				ways = append(ways, c.blockFacts(blk, depth-1))
+			}
+			return
+		case *ssa.Phi:
+			if seen[x] {
+				return
+			}
+			seen[x] = true
+			for i, e := range x.Edges {
+				visit(e, x.Block().Preds[i], seen)
+			}
+			return
+		}
+		w := c.blockFacts(blk, depth-1)
+		w = append(w, c.impliedFacts(r, truth, depth-1)...)
+		ways = append(ways, w)
+	}
+	for _, ret := range ir.Returns(callee) {
+		visit(ir.ReturnOperand(ret, 0), ret.Block(), map[ssa.Value]bool{})
+	}
+	if len(ways) == 0 {
+		return own
+	}
+	// intersection
+	common := map[fact]int{}
+	for _, w := range ways {
+		seen := map[fact]bool{}
+		for _, f := range w {
+			if !seen[f] {
+				seen[f] = true
+				common[f]++
+			}
+		}
+	}
+	for f, n := range common {
+		if n == len(ways) {
+			own = append(own, f)
+		}
+	}
+	sort.Slice(own, func(i, j int) bool { return own[i].Atom < own[j].Atom })
+	return own
+}
+
+// boolPhiPruner makes a path search that starts at `starts` sensitive to boolean flags:
+// for an `if flag` whose flag is a phi of boolean constants, only the constants that can
+// flow into the phi on a path from the start nodes (first arrival at the phi's block) are
+// considered; the contradicted edge is pruned. Intraprocedural (root frame).
+func boolPhiPruner(starts []paths.Node) func(f *paths.Frame, iff *ssa.If, idx int) bool {
+	reach := map[*ssa.BasicBlock]map[*ssa.BasicBlock]bool{} // phi block -> blocks reachable from starts without entering it
+	return func(f *paths.Frame, iff *ssa.If, idx int) bool {
+		v := iff.Cond
+		truth := idx == 0
+		for i := 0; i < 4; i++ {
+			if u, ok := v.(*ssa.UnOp); ok && u.Op == token.NOT {
+				v, truth = u.X, !truth
+				continue
+			}
+			break
+		}
+		phi, ok := v.(*ssa.Phi)
+		if !ok {
+			return false
+		}
+		pb := phi.Block()
+		r := reach[pb]
+		if r == nil {
+			r = map[*ssa.BasicBlock]bool{}
+			var stack []*ssa.BasicBlock
+			for _, s := range starts {
+				if s.F != nil && s.F.Parent == nil && s.Instr != nil && s.Instr.Parent() == pb.Parent() {
+					stack = append(stack, s.Instr.Block())
+				}
+			}
+			for len(stack) > 0 {
+				b := stack[len(stack)-1]
+				stack = stack[:len(stack)-1]
+				if r[b] || b == pb {
+					continue
+				}
+				r[b] = true
+				stack = append(stack, b.Succs...)
+			}
+			reach[pb] = r
+		}
+		if len(r) == 0 {
+			return false
+		}
+		canTrue, canFalse, unknown := false, false, false
+		for i, e := range phi.Edges {
+			if !r[pb.Preds[i]] {
+				continue
+			}
+			k, ok := e.(*ssa.Const)
+			if !ok || k.Value == nil {
+				unknown = true
+				continue
+			}
+			if k.Value.ExactString() == "true" {
+				canTrue = true
+			} else {
+				canFalse = true
+			}
+		}
+		if unknown || (canTrue && canFalse) || (!canTrue && !canFalse) {
+			return false
+		}
+		// the flag is known: prune the edge that contradicts it
+		return truth != canTrue
 	}
 }
